@@ -952,7 +952,7 @@ func (en *enumerator) enumLevel(f *idl.File, e *idl.Enum, declPos string) {
 		// down, every surviving name is still there, the LAST number is gone
 		if i+1 < len(e.Values) && !e.Values[i+1].Explicit {
 			if _, nested := variantRefs(p, f, name, vname); nested == 0 {
-				en.add("remove-enum-value", fb, site+", later variants shift", shape+"/shift", []string{vkey, ekey + "/shift"}, func(c *ectx) bool {
+				en.add("remove-enum-value", fb, site+", later variants shift", shape+"/shift", []string{vkey, ekey + "/shift", ekey + "/+v"}, func(c *ectx) bool {
 					cf := fileOf(c.p, fb)
 					ce := enumOf(cf, name)
 					if ce == nil || len(ce.Values) < 2 {
